@@ -47,3 +47,7 @@ spec fn opt_a(heads: Map<u64, IDX>, next: Seq<IDX>, hashes: Seq<u64>, valid: Opt
     match o { Some(x) => off_a(heads, next, hashes, valid, x), None => Seq::empty() }
 }
 fn min_usize(a: usize, b: usize) -> (r: usize) ensures r == (if a <= b { a } else { b }) { if a <= b { a } else { b } }
+/// R1: stands for `&s[a..]`
+fn slice_from<T>(s: &[T], a: usize) -> (r: &[T]) requires a <= s@.len() ensures r@ == s@.subrange(a as int, s@.len() as int) {
+    vstd::slice::slice_subrange(s, a, s.len())
+}
